@@ -2,6 +2,11 @@
 """writes MANIFEST.json from the table below (keeps it valid and in one place)"""
 import json, os
 CHECKS = {
+ 'C09': dict(technique='call-exactly-once / hand-over / store-and-link typestate on the release callback (R-RELEASE-ONCE)',
+             text='Decides one clause of C09 - the sender\'s release callback runs exactly once - on every path of every function that takes a release_func and of '
+                  'the lg_xmit deleter. One genuine defect (request == NULL in coap_add_data_large_response_lkd) is a known finding. Body integrity, tiling, '
+                  'at-most-once delivery, token hiding and size fitting quantify over runtime lengths and schedules and are not decided.',
+             design='6 C09'),
  'C10': dict(technique='linear ownership of the response object (R-OWN-PDU) and emission-count typestate over coap_dispatch/handle_request (R-REPLY-ONCE)',
              text='Decides the clause "at most one direct reply per request datagram": every reply object is created once and sent or deleted exactly once on '
                   'every path, and no path passes two emission points except Empty ACK followed by the response. The reply-code table, handler selection '
